@@ -444,7 +444,7 @@ pub fn run_once(f: Scenario, prefix: Vec<u32>, mode: Mode, seed: u64, want_sampl
     let mut ctx = Ctx::new(prefix, mode, seed);
     ctx.want_sample = want_sample;
     f(&mut ctx);
-    if ctx.pos < ctx.prefix.len() {
+    if ctx.pos < ctx.prefix.len() && !ctx.pruned {
         machinery(format!(
             "replay divergence: execution consumed {} choices but {} were recorded",
             ctx.pos,
